@@ -7,3 +7,4 @@ import Properties.Full
 #print axioms Hive.C02.initial
 #print axioms Hive.C02.loaded_layout
 #print axioms Hive.Full.C02
+#print axioms Hive.C02.loaded_installed
